@@ -338,15 +338,23 @@ package grpctunnel
 
 //@ func fromProto
 //@   assigns nothing
-//@   loop 1 invariant true
-//@   ensures[C02] @nil md == nil ==> result == nil
+//@   loop 1 invariant[C02] @copied  forall k string :: visited(k) ==> has(vals, k) && sameSlice(vals[k], md.Md[k].Val) && has(md.Md, k)
+//@   loop 1 invariant[C02] @only    forall k string :: has(vals, k) ==> visited(k)
+//@   loop 1 invariant[C02] @alive   vals != nil && md != nil
+//@   ensures[C02] @nil    md == nil ==> result == nil
 //@   ensures[C02] @nonnil md != nil ==> result != nil
+//@   ensures[C02] @keys   md != nil ==> forall k string :: has(result, k) <==> has(md.Md, k)
+//@   ensures[C02] @values md != nil ==> forall k string :: has(md.Md, k) ==> sameSlice(result[k], md.Md[k].Val)
 //@   nopanic[C09]
 
 //@ func toProto
 //@   assigns nothing
-//@   loop 1 invariant true
+//@   loop 1 invariant[C02] @copied  forall k string :: visited(k) ==> has(vals, k) && vals[k] != nil && sameSlice(vals[k].Val, md[k]) && has(md, k)
+//@   loop 1 invariant[C02] @only    forall k string :: has(vals, k) ==> visited(k)
+//@   loop 1 invariant[C02] @alive   vals != nil
 //@   ensures[C02] @nonnil result != nil
+//@   ensures[C02] @keys   forall k string :: has(result.Md, k) <==> has(md, k)
+//@   ensures[C02] @values forall k string :: has(md, k) ==> result.Md[k] != nil && sameSlice(result.Md[k].Val, md[k])
 //@   nopanic[C09]
 
 //@ func (*tunnelServer).createStream
